@@ -61,7 +61,8 @@ def gen_cases(tier, seed):
                    f"{kw.get('adc_order', '')}-"
                    f"{block.replace(',', '_')}-{order}"
                    f"{'' if subtract_gs else '-nogs'}"
-                   f"{'-singles' if kw.get('singles') else ''}")
+                   f"{'-singles' if kw.get('singles') else ''}"
+                   f"{'-hist' if kw.get('pre_flag') else ''}")
         cases.append(c)
     for variant in ('pp', 'ip', 'ea', 'dip', 'dea'):
         s1, s2 = spaces_upto(variant, 2)
@@ -77,6 +78,13 @@ def gen_cases(tier, seed):
         add(variant, 'isr', f'{s1},{s1}', 1, subtract_gs=False, cost=10)
         add(variant, 'precursor', f'{s1},{s1}', 2, cost=30)
         add(variant, 'table', '', 0, cost=1)
+    # both subtract_gs values on one instance, in both orders
+    for variant, o in (('pp', 2), ('ip', 2), ('ea', 1), ('ip', 0)):
+        s1, s2 = spaces_upto(variant, 2)
+        add(variant, 'isr', f'{s1},{s1}', o, cost=20 + 30 * o, pre_flag=True)
+        add(variant, 'isr', f'{s1},{s1}', o, subtract_gs=False,
+            cost=20 + 30 * o, pre_flag=True)
+    add('ip', 'isr', 'phh,phh', 1, subtract_gs=False, cost=60, pre_flag=True)
     # ground state with free first-order singles (first_order_singles=True)
     for variant in ('pp', 'ip'):
         s1, s2 = spaces_upto(variant, 2)
@@ -213,6 +221,12 @@ def run_case(case, res):
     sI, sJ = ''.join(Io + Iv), ''.join(Jo + Jv)
     if kind in ('isr', 'precursor'):
         fn = sm.isr_matrix_block if kind == 'isr' else sm.precursor_matrix_block
+        if case.get('pre_flag'):
+            # an earlier request with the other subtract_gs value on the same
+            # SecularMatrix instance (cached members must not leak)
+            lib_call(fn, order, f'{spI},{spJ}', f'{sI},{sJ}',
+                     not case['subtract_gs'])
+            res.count('history_pairs')
         expr = lib_call(fn, order, f'{spI},{spJ}', f'{sI},{sJ}',
                         case['subtract_gs'])
         tgt = get_symbols(Io + Iv + Jo + Jv)
